@@ -405,3 +405,568 @@ def m_sp_lstsq(ex, st, args, kwargs, node):
     rank = ex.fresh_int('rank')
     st.assume(rank >= 0, rank <= Z(Am.shape[0]), rank <= Z(Am.shape[1]))
     return VTuple([x, VOpaque('residues'), rank, VOpaque('s')])
+
+
+# ----------------------------------------------------------------------------------------------
+# opt_einsum.contract: the shape rule of an einsum; `out=` is written in place (and returned)
+
+def _unopt(ex, st, v, node, what):
+    v = st.deref(v)
+    if isinstance(v, VOpt):
+        ex.oblige(st, 'safety', f'{what}-not-None', z3.Not(v.isnone), node)
+        v = st.deref(v.val)
+    return v
+
+
+@model('opt_einsum.contract')
+def m_contract(ex, st, args, kwargs, node):
+    spec = args[0].concrete() if args and isinstance(args[0], VStr) else None
+    if spec is None or '->' not in spec or not set(kwargs) <= {'out'}:
+        raise Unsupported('opt_einsum.contract: only contract("<explicit subscripts with ->>", operands..., out=) is modelled')
+    ins, res = spec.replace(' ', '').split('->')
+    terms = ins.split(',')
+    raw = list(args[1:])
+    if len(terms) != len(raw):
+        raise Unsupported('opt_einsum.contract: number of operands does not match the subscripts')
+    ops = [_unopt(ex, st, a, node, 'contract-operand') for a in raw]
+    outraw = kwargs.get('out')
+    outv = _unopt(ex, st, outraw, node, 'contract-out') if outraw is not None else None
+    used('opt_einsum.contract(subscripts, operands..., out=) -> einsum shape rule: an index letter has one dimension in all operands; '
+         'the result has the dimensions of the output letters; with out= the result is written into that array (same shape required)')
+    event = dict(spec=spec, ops=ops, raw=raw, out=outv, outraw=outraw, line=node.lineno)
+    st.ghost['contracts'] = st.ghost.get('contracts', []) + [event]
+    if any(isinstance(o, VOpaque) for o in ops) or isinstance(outv, VOpaque):
+        if ex.lenient:
+            return outv if outv is not None else VOpaque('contract')
+        raise Unsupported('opt_einsum.contract of opaque arrays')
+    dims = {}
+    check = getattr(ex, 'als_contract_shapes', True)
+    for t, o in zip(terms, ops):
+        if not isinstance(o, VArr) or o.ndim != len(t):
+            raise Unsupported(f'opt_einsum.contract: operand for "{t}" is not an array with {len(t)} dimensions (line {node.lineno})')
+        for c, dim in zip(t, o.shape):
+            if c in dims:
+                if check:
+                    ex.oblige(st, 'call-pre', f'contract-index-{c}-dimensions-agree', Z(dims[c]) == Z(dim), node)
+            else:
+                dims[c] = dim
+    if not set(res) <= set(dims) or len(set(res)) != len(res):
+        raise Unsupported('opt_einsum.contract: malformed output subscripts')
+    shp = tuple(dims[c] for c in res)
+    event['shape'] = shp
+    if outv is not None:
+        if not isinstance(outv, VArr) or outv.ndim != len(shp):
+            raise Unsupported('opt_einsum.contract: out= is not an array of the result rank')
+        if check:
+            ex.oblige(st, 'call-pre', 'contract-out-has-the-result-shape', z3.And([Z(a) == Z(b) for a, b in zip(outv.shape, shp)]), node)
+        return outv
+    return VArr(shp, None, None)
+
+
+@model('dict')
+def m_dict(ex, st, args, kwargs, node):
+    if args:
+        raise Unsupported('dict(<positional>)')
+    used('dict(key=value, ...) -> a new dict with these literal keys')
+    return st.alloc(VRec(dict(kwargs)))
+
+
+# ----------------------------------------------------------------------------------------------
+# slice coverage:  np.unique(I[:, k]).size != n_k
+
+ndist = z3.Function('ndist', IA, I, I)
+covers = z3.Function('covers', IA, I, I, B)
+inrng = z3.Function('inrng', IA, I, I, B)
+occ = z3.Function('occ', IA, I, I, I)
+miss = z3.Function('miss', IA, I, I, I)
+v_ = z3.Const('v!als', IA)
+s_ = z3.Int('s!als')
+
+T.GROUPS['cover'] = [
+    # pigeonhole: m entries of [0, n) have n distinct values iff every value of [0, n) occurs
+    A([v_, m_, n_], z3.Implies(z3.And(m_ >= 0, n_ >= 0, inrng(v_, m_, n_)), (ndist(v_, m_) == n_) == covers(v_, m_, n_)),
+      [z3.MultiPattern(ndist(v_, m_), covers(v_, m_, n_)), z3.MultiPattern(ndist(v_, m_), miss(v_, m_, n_))]),
+    A([v_, m_, n_, j_], z3.Implies(z3.And(covers(v_, m_, n_), 0 <= j_, j_ < n_),
+                                   z3.And(0 <= occ(v_, m_, j_), occ(v_, m_, j_) < m_, v_[occ(v_, m_, j_)] == j_)),
+      [z3.MultiPattern(covers(v_, m_, n_), occ(v_, m_, j_))]),
+    A([v_, m_, n_], z3.Implies(z3.Not(covers(v_, m_, n_)), z3.And(0 <= miss(v_, m_, n_), miss(v_, m_, n_) < n_)),
+      [covers(v_, m_, n_), miss(v_, m_, n_)]),
+    A([v_, m_, n_, s_], z3.Implies(z3.And(z3.Not(covers(v_, m_, n_)), 0 <= s_, s_ < m_), v_[s_] != miss(v_, m_, n_)),
+      [z3.MultiPattern(covers(v_, m_, n_), v_[s_]), z3.MultiPattern(miss(v_, m_, n_), v_[s_])]),
+    A([v_, m_], z3.And(0 <= ndist(v_, m_), z3.Implies(m_ >= 0, ndist(v_, m_) <= m_)), [ndist(v_, m_)]),
+]
+
+
+def m_unique_als(ex, st, args, kwargs, node):
+    """np.unique(v) of an integer vector with a denotation (pass as callees={'np.unique': X.m_unique_als}: the model-table entry
+    'np.unique' belongs to another extension module)."""
+    v = st.deref(args[0]) if args else None
+    if len(args) == 1 and not kwargs and isinstance(v, VArr) and v.ndim == 1 and v.tag == 'ivec' and v.t is not None and not callable(v.t):
+        used('np.unique(v) of an integer vector -> sorted distinct values: ndist(v, len) of them')
+        return VArr((ndist(v.t, Z(v.shape[0])),), None, None, 'i')
+    return M.FUNCS['np.unique'](ex, st, args, kwargs, node)
+
+
+# ----------------------------------------------------------------------------------------------
+# shape tier of als._optimize_core_adaptive (gated): boolean masks with a sample count, dict-of-masks caches, try / except KeyError
+# on a dict with literal keys, 4-D merged core
+
+class VMaskMap(M.VMap):
+    """dict  mode index -> boolean mask over the samples  (the i1 / i2 caches): only the mask length is kept."""
+    def __init__(self, name='maskmap', n=None):
+        M.VMap.__init__(self, name)
+        self.n = n
+
+    def copy(self):
+        c = VMaskMap(self.name, self.n)
+        c.writes = self.writes
+        return c
+
+
+def new_mask(ex, st, n):
+    """A boolean mask of length n with its number of True entries (any() <=> count >= 1, sum() = count)."""
+    mk = VArr((n,), None, 'mask', 'b')
+    mk.count = ex.fresh_int('ntrue')
+    st.assume(mk.count >= 0, mk.count <= Z(n))
+    return mk
+
+
+def _is_mask(v):
+    return isinstance(v, VArr) and v.ndim == 1 and v.dtype == 'b'
+
+
+def _count(ex, st, mk):
+    if getattr(mk, 'count', None) is None:
+        mk.count = ex.fresh_int('ntrue')
+        st.assume(mk.count >= 0, mk.count <= Z(mk.shape[0]))
+    return mk.count
+
+
+_orig_subscript = M.subscript
+
+
+def subscript(ex, st, base, sl_, node):
+    b = st.deref(base)
+    if isinstance(b, VMaskMap):
+        ex.ev(sl_, st)
+        if b.n is None:
+            raise Unsupported('lookup in a mask cache before anything was stored in it')
+        used('cache[k] of a dict of boolean masks -> a boolean mask of the common length (contents not interpreted)')
+        return new_mask(ex, st, b.n)
+    return _orig_subscript(ex, st, base, sl_, node)
+
+
+M.subscript = subscript
+_orig_store2 = M.store
+
+
+def store2(ex, st, base, sl_, v, node, base_node):
+    b = st.deref(base)
+    val = st.deref(v)
+    if isinstance(b, VMaskMap):
+        ex.ev(sl_, st)
+        if not _is_mask(val):
+            raise Unsupported('a mask cache stores something that is not a boolean vector')
+        if b.n is None:
+            b.n = val.shape[0]
+        else:
+            ex.oblige(st, 'call-pre', 'cached-masks-have-one-common-length', Z(b.n) == Z(val.shape[0]), node)
+        b.writes += 1
+        return
+    if _on(ex) and isinstance(b, VArr) and b.ndim == 4 and isinstance(base_node, ast.Name) and isinstance(sl_, ast.Tuple) and len(sl_.elts) == 4 \
+            and _full(sl_.elts[0]) and _full(sl_.elts[3]) and not isinstance(sl_.elts[1], ast.Slice) and not isinstance(sl_.elts[2], ast.Slice):
+        i1 = M.norm_index(ex, st, ex.need_num(st, ex.ev(sl_.elts[1], st), node), b.shape[1], node, 'mode-index')
+        i2 = M.norm_index(ex, st, ex.need_num(st, ex.ev(sl_.elts[2], st), node), b.shape[2], node, 'mode-index')
+        used('Q[:, k1, k2, :] = X on a 4-D array -> requires X of shape (Q.shape[0], Q.shape[3]); contents not interpreted')
+        ex.oblige(st, 'call-pre', 'block-assignment-shape-matches',
+                  z3.And(Z(val.shape[0]) == Z(b.shape[0]), Z(val.shape[1]) == Z(b.shape[3])) if isinstance(val, VArr) and val.ndim == 2 else False, node)
+        st.vars[base_node.id] = VArr(b.shape, None, None, b.dtype)
+        st.ghost['block_stores'] = st.ghost.get('block_stores', []) + [(i1, i2)]
+        return
+    return _orig_store2(ex, st, base, sl_, v, node, base_node)
+
+
+M.store = store2
+_orig_binop2 = M.arr_binop
+
+
+def arr_binop2(ex, st, op, l, r, node):
+    if isinstance(op, ast.BitAnd) and _is_mask(l) and _is_mask(r):
+        used('mask1 & mask2 -> boolean mask of the same length (requires equal lengths)')
+        ex.oblige(st, 'call-pre', 'elementwise-shapes-agree', Z(l.shape[0]) == Z(r.shape[0]), node)
+        return new_mask(ex, st, l.shape[0])
+    if _on(ex) and isinstance(op, ast.Mult) and isinstance(l, VArr) and isinstance(r, VArr):
+        for p, q in ((l, r), (r, l)):
+            if p.tag == 'bcMs' and q.tag == 'bcRs':
+                used('X[:, :, None] * Z[:, None, :] -> 3-D array (s, a, b); requires equal row counts (shape only)')
+                ex.oblige(st, 'call-pre', 'broadcast-leading-axes-agree', Z(p.shape[0]) == Z(q.shape[0]), node)
+                return VArr((p.shape[0], p.shape[1], q.shape[2]), None, 'fsps')
+        if {l.tag, r.tag} & {'bcMs', 'bcRs', 'fsps'}:
+            raise Unsupported(f'broadcast product of {l.tag} and {r.tag} at line {node.lineno}')
+    return _orig_binop2(ex, st, op, l, r, node)
+
+
+M.arr_binop = arr_binop2
+_orig_index2 = M.arr_index
+
+
+def arr_index2(ex, st, a, sl_, node):
+    elts = sl_.elts if isinstance(sl_, ast.Tuple) else [sl_]
+    if _on(ex) and isinstance(a, VArr) and a.t is None:
+        if a.ndim == 2 and len(elts) == 2:
+            e0, e1 = elts
+            for fe, ie, ax in ((e0, e1, 1), (e1, e0, 0)):
+                if _full(fe) and isinstance(ie, ast.Name) and _is_mask(st.vars.get(ie.id)):
+                    mk = st.vars[ie.id]
+                    used('A[:, mask] / A[mask, :] with a boolean mask -> as many columns / rows as the mask has True entries')
+                    ex.oblige(st, 'call-pre', 'boolean-mask-has-the-length-of-the-axis', Z(mk.shape[0]) == Z(a.shape[ax]), node)
+                    c = _count(ex, st, mk)
+                    return VArr((a.shape[0], c) if ax == 1 else (c, a.shape[1]), None, None, a.dtype)
+        if a.ndim == 1 and len(elts) == 1 and isinstance(elts[0], ast.Name) and _is_mask(st.vars.get(elts[0].id)):
+            mk = st.vars[elts[0].id]
+            used('v[mask] with a boolean mask -> as many entries as the mask has True entries')
+            ex.oblige(st, 'call-pre', 'boolean-mask-has-the-length-of-the-axis', Z(mk.shape[0]) == Z(a.shape[0]), node)
+            return VArr((_count(ex, st, mk),), None, None, a.dtype)
+        if a.ndim == 2 and len(elts) == 3 and a.tag in (None, 'mat'):
+            if _full(elts[0]) and _full(elts[1]) and _newaxis(elts[2]):
+                return VArr((a.shape[0], a.shape[1], 1), None, 'bcMs')
+            if _full(elts[0]) and _newaxis(elts[1]) and _full(elts[2]):
+                return VArr((a.shape[0], 1, a.shape[1]), None, 'bcRs')
+    return _orig_index2(ex, st, a, sl_, node)
+
+
+M.arr_index = arr_index2
+_orig_reshape2 = M.reshape
+
+
+def reshape2(ex, st, a, shp, order, node):
+    if _on(ex) and isinstance(a, VArr) and (isinstance(order, VStr) and order.concrete() == 'C'):
+        neg = lambda x: isinstance(x, int) and x == -1
+        if a.tag == 'fsps' or (a.t is None and a.ndim in (1, 4)) or (a.ndim == 2 and a.tag == 'mat'):
+            dims = M.shape_arg(ex, st, shp, node)
+            if a.tag == 'fsps' and len(dims) == 2 and neg(dims[1]) and not neg(dims[0]):
+                ex.oblige(st, 'call-pre', 'reshape-keeps-the-leading-axis', Z(dims[0]) == Z(a.shape[0]), node)
+                return VArr((a.shape[0], T.mul_canon(a.shape[1], a.shape[2])), None, None)
+            if a.ndim == 1 and a.t is None and len(dims) == 2 and not neg(dims[0]) and not neg(dims[1]):
+                used('v.reshape(a, b) of a 1-D array -> requires len(v) = a * b (shape only)')
+                ex.oblige(st, 'call-pre', 'reshape-preserves-size', Z(a.shape[0]) == T.mul_canon(dims[0], dims[1]), node)
+                return VArr((dims[0], dims[1]), None, None)
+            if a.ndim == 4 and a.t is None and len(dims) == 2 and neg(dims[1]) and M._same(st, dims[0], T.mul_canon(a.shape[0], a.shape[1])):
+                used('Q.reshape(s0 * s1, -1) of a 4-D array -> SOME matrix of shape (s0 * s1, s2 * s3) (contents not interpreted)')
+                t = ex.fresh('Qs', T.Mat)
+                r_, c_ = T.mul_canon(a.shape[0], a.shape[1]), T.mul_canon(a.shape[2], a.shape[3])
+                st.assume(T.rows(t) == r_, T.cols(t) == c_)
+                return VArr((r_, c_), t, 'mat')
+            if a.ndim == 2 and a.tag == 'mat' and len(dims) == 3 and neg(dims[0]) and not neg(dims[1]) and not neg(dims[2]):
+                used('V.reshape(-1, n, r) of a matrix (C order) -> 3-D array (rows(V), n, r); requires cols(V) = n * r (shape only)')
+                ex.oblige(st, 'call-pre', 'reshape-preserves-size', Z(a.shape[1]) == T.mul_canon(dims[1], dims[2]), node)
+                g = ex.fresh('core', T.Core)
+                st.assume(T.d0(g) == Z(a.shape[0]), T.d1(g) == Z(dims[1]), T.d2(g) == Z(dims[2]))
+                return M.mk_core(g)
+    return _orig_reshape2(ex, st, a, shp, order, node)
+
+
+M.reshape = reshape2
+_orig_method2 = M.method
+
+
+def method2(ex, st, recv, name, args, kwargs, node):
+    r = st.deref(recv)
+    if _is_mask(r) and not args and not kwargs and name in ('any', 'sum'):
+        c = _count(ex, st, r)
+        used('mask.any() / mask.sum() of a boolean vector -> (count >= 1) / count of its True entries')
+        return c >= 1 if name == 'any' else c
+    if _on(ex) and name == 'reshape' and isinstance(r, VArr) and args:
+        flat = []
+        for a in args:
+            if type(a).__name__ == 'VStar':
+                inner = st.deref(a.value)
+                if not isinstance(inner, (VTuple, VList)):
+                    raise Unsupported('reshape(*x) with a non-tuple')
+                flat.extend(inner.items)
+            else:
+                flat.append(a)
+        if len(flat) != len(args) or r.tag == 'fsps' or (r.t is None and r.ndim in (1, 4)):
+            shp = flat[0] if len(flat) == 1 else VTuple(flat)
+            return M.reshape(ex, st, r, shp, kwargs.get('order', VStr('C')), node)
+    return _orig_method2(ex, st, recv, name, args, kwargs, node)
+
+
+M.method = method2
+_orig_try = M.try_stmt
+
+
+def try_stmt(ex, st, s):
+    """try: x = d['key'] / except KeyError: handler  - for a dict with literal keys the lookup raises iff the key is absent."""
+    if _on(ex) and not s.orelse and not s.finalbody and len(s.handlers) == 1 and s.handlers[0].name is None \
+            and isinstance(s.handlers[0].type, ast.Name) and s.handlers[0].type.id == 'KeyError' and len(s.body) == 1 \
+            and isinstance(s.body[0], ast.Assign) and isinstance(s.body[0].value, ast.Subscript) and isinstance(s.body[0].value.value, ast.Name) \
+            and isinstance(s.body[0].value.slice, ast.Constant) and isinstance(s.body[0].value.slice.value, str):
+        d_ = st.deref(st.vars.get(s.body[0].value.value.id))
+        if isinstance(d_, VRec):
+            used('try: x = d[key] / except KeyError -> the handler runs iff the literal key is absent from the dict')
+            if s.body[0].value.slice.value in d_.fields:
+                return ex.exec_block(s.body, st)
+            return ex.exec_block(s.handlers[0].body, st)
+    return _orig_try(ex, st, s)
+
+
+M.try_stmt = try_stmt
+
+
+@model('np.prod')
+def m_prod(ex, st, args, kwargs, node):
+    v = st.deref(args[0])
+    if len(args) == 1 and not kwargs and isinstance(v, (VTuple, VList)) and v.items and all(is_intsort(x) for x in v.items):
+        used('np.prod((a, b, ...)) of integers -> the product (canonical product of dimensions)')
+        return T.mul_canon(*v.items)
+    raise Unsupported('np.prod pattern')
+
+
+# ----------------------------------------------------------------------------------------------
+# als_func._optimize_core: three-factor design matrix, C-order flattening of a core, in-place writes, relative top-coefficient test
+#
+#   vec3(G)            = G.reshape(-1) (C order, as a column);   unvec3(v, a, b, c) = v.reshape(a, b, c)
+#   cadd(G, H)         = G + H
+#   ctrunc(G, n)       = G[:, :n, :];    cpre(G, H) = G with its leading d1(H) mode slices replaced by those of H (a write through
+#                        the view G[:, :d1(H), :])
+#   maxabsC(G), maxabsM(A) = np.abs(.).max()
+#   fpred(P, H, G, R)  = the model values  sum_{k,j,l} P[i,k] H[i,j] G[k,j,l] R[i,l]   (TT-Tucker prediction at the samples)
+
+vec3 = z3.Function('vec3', Core, Mat)
+unvec3 = z3.Function('unvec3', Mat, I, I, I, Core)
+cadd = z3.Function('cadd', Core, Core, Core)
+ctrunc = z3.Function('ctrunc', Core, I, Core)
+cpre = z3.Function('cpre', Core, Core, Core)
+maxabsC = z3.Function('maxabsC', Core, R)
+maxabsM = z3.Function('maxabsM', Mat, R)
+fpred = z3.Function('fpred', Mat, Mat, Core, Mat, Mat)
+H_ = z3.Const('H!als', Core)
+p_, q_ = z3.Ints('p!als q!als')
+d0, d1, d2, sl = T.d0, T.d1, T.d2, T.sl
+
+
+def size3(g):
+    return T.mul_canon(d0(g), d1(g), d2(g))
+
+
+T.GROUPS['als3'] = [
+    A([a_, m_, n_, k_], z3.And(d0(unvec3(a_, m_, n_, k_)) == m_, d1(unvec3(a_, m_, n_, k_)) == n_, d2(unvec3(a_, m_, n_, k_)) == k_),
+      [unvec3(a_, m_, n_, k_)]),
+    A([G_], z3.And(rows(vec3(G_)) == size3(G_), cols(vec3(G_)) == 1), [vec3(G_)]),
+    A([a_, m_, n_, k_], z3.Implies(z3.And(m_ >= 1, n_ >= 1, k_ >= 1, rows(a_) == T.mul_canon(m_, n_, k_), cols(a_) == 1),
+                                   vec3(unvec3(a_, m_, n_, k_)) == a_), [unvec3(a_, m_, n_, k_)]),
+    A([G_], unvec3(vec3(G_), d0(G_), d1(G_), d2(G_)) == G_, [vec3(G_)]),
+    A([G_, H_], z3.And(d0(cadd(G_, H_)) == d0(G_), d1(cadd(G_, H_)) == d1(G_), d2(cadd(G_, H_)) == d2(G_)), [cadd(G_, H_)]),
+    A([G_, H_], z3.Implies(z3.And(d0(G_) == d0(H_), d1(G_) == d1(H_), d2(G_) == d2(H_)), vec3(cadd(G_, H_)) == madd(vec3(G_), vec3(H_))),
+      [cadd(G_, H_)]),
+    A([G_, n_], z3.Implies(z3.And(0 <= n_, n_ <= d1(G_)),
+                           z3.And(d0(ctrunc(G_, n_)) == d0(G_), d1(ctrunc(G_, n_)) == n_, d2(ctrunc(G_, n_)) == d2(G_))), [ctrunc(G_, n_)]),
+    A([G_, n_, j_], z3.Implies(z3.And(0 <= j_, j_ < n_, n_ <= d1(G_)), sl(ctrunc(G_, n_), j_) == sl(G_, j_)), [sl(ctrunc(G_, n_), j_)]),
+    A([G_, H_], z3.And(d0(cpre(G_, H_)) == d0(G_), d1(cpre(G_, H_)) == d1(G_), d2(cpre(G_, H_)) == d2(G_)), [cpre(G_, H_)]),
+    A([G_, H_, j_], z3.Implies(z3.And(d0(H_) == d0(G_), d2(H_) == d2(G_), d1(H_) <= d1(G_), 0 <= j_, j_ < d1(G_)),
+                               sl(cpre(G_, H_), j_) == z3.If(j_ < d1(H_), sl(H_, j_), sl(G_, j_))), [sl(cpre(G_, H_), j_)]),
+    A([G_], maxabsC(G_) >= 0, [maxabsC(G_)]),
+    A([a_], maxabsM(a_) >= 0, [maxabsM(a_)]),
+    A([G_, j_], z3.Implies(z3.And(0 <= j_, j_ < d1(G_)), maxabsM(sl(G_, j_)) <= maxabsC(G_)), [maxabsM(sl(G_, j_))]),
+]
+# layout of the three-factor design matrix against the C-order flattening of the core
+T.GROUPS['kr3vec'] = [
+    A([a_, b_, c_, G_], z3.Implies(z3.And(rows(a_) == rows(b_), rows(b_) == rows(c_), cols(a_) == d0(G_), cols(b_) == d1(G_), cols(c_) == d2(G_)),
+                                   mm(krrows(krrows(a_, b_), c_), vec3(G_)) == fpred(a_, b_, G_, c_)),
+      [mm(krrows(krrows(a_, b_), c_), vec3(G_))]),
+]
+
+
+class VMaxAbs:
+    """np.abs(X).max(): a non-negative real kept apart from ordinary numbers because `a / b < c` on two of them is evaluated with
+    the IEEE result for b = 0 (nan / inf compare False) instead of an A-REAL division."""
+    def __init__(self, term):
+        self.term = term
+
+
+class VRatio:
+    def __init__(self, num, den):
+        self.num, self.den = num, den
+
+
+_orig_exec_binop = symex.Exec.binop
+
+
+def _exec_binop(self, st, op, l, r, node):
+    if isinstance(l, VMaxAbs) or isinstance(r, VMaxAbs):
+        if isinstance(op, ast.Div) and isinstance(l, VMaxAbs) and isinstance(r, VMaxAbs):
+            return VRatio(l.term, r.term)
+        raise Unsupported(f'arithmetic on np.abs(.).max() other than a quotient of two of them (line {node.lineno})')
+    return _orig_exec_binop(self, st, op, l, r, node)
+
+
+symex.Exec.binop = _exec_binop
+_orig_exec_compare = symex.Exec.compare
+
+
+def _exec_compare(self, st, op, l, r, node):
+    if isinstance(l, VRatio) or isinstance(r, VRatio) or isinstance(l, VMaxAbs) or isinstance(r, VMaxAbs):
+        if isinstance(l, VRatio) and isinstance(op, ast.Lt) and is_num(self.need_num(st, r, node)):
+            used('a / b < c for two non-negative floats a <= b (np.abs(.).max() values): true iff b > 0 and a < c * b; for b = 0 the '
+                 'quotient is nan (0 / 0, RuntimeWarning only) and the comparison is False   [IEEE 754, A-REAL otherwise]')
+            c = to_real(self.need_num(st, r, node))
+            return z3.And(l.den > 0, l.num < c * l.den)
+        raise Unsupported(f'comparison of np.abs(.).max() values other than `ratio < number` (line {node.lineno})')
+    return _orig_exec_compare(self, st, op, l, r, node)
+
+
+symex.Exec.compare = _exec_compare
+
+_orig_method3 = M.method
+
+
+def method3(ex, st, recv, name, args, kwargs, node):
+    r = st.deref(recv)
+    if _on(ex) and isinstance(r, VArr):
+        if name == 'max' and not args and not kwargs and r.note and r.note[0] == 'abs':
+            src = r.note[1]
+            if isinstance(src, VArr) and src.t is not None and src.tag in ('core', 'mat'):
+                used('np.abs(X).max() -> maxabsC(X) / maxabsM(X) >= 0 (requires a non-empty array)')
+                for s_dim in src.shape:
+                    ex.oblige(st, 'call-pre', 'max-of-non-empty', Z(s_dim) >= 1, node)
+                return VMaxAbs(maxabsC(src.t) if src.tag == 'core' else maxabsM(src.t))
+        if name == 'reshape' and r.ndim == 3 and r.tag == 'core' and r.t is not None and len(args) == 1 and isinstance(args[0], int) and args[0] == -1 \
+                and kwargs.get('order') is None:
+            used('G.reshape(-1) of a core (C order) -> vec3(G) as a 1-D array')
+            return cvec(vec3(r.t), T.mul_canon(*r.shape))
+    return _orig_method3(ex, st, recv, name, args, kwargs, node)
+
+
+M.method = method3
+_orig_reshape3 = M.reshape
+
+
+def reshape3(ex, st, a, shp, order, node):
+    if isinstance(a, VArr) and (isinstance(order, VStr) and order.concrete() == 'C'):
+        if is_cvec(a) or a.tag == 'kr3':
+            dims = M.shape_arg(ex, st, shp, node)
+            neg = lambda x: isinstance(x, int) and x == -1
+            if is_cvec(a) and len(dims) == 3 and not any(neg(x) for x in dims):
+                used('v.reshape(a, b, c) of a 1-D array (C order) -> unvec3(v, a, b, c); requires len(v) = a * b * c')
+                ex.oblige(st, 'call-pre', 'reshape-preserves-size', Z(a.shape[0]) == T.mul_canon(*dims), node)
+                return VArr(tuple(dims), unvec3(a.t, *[Z(x) for x in dims]), 'core')
+            if a.tag == 'kr3' and len(dims) == 2 and neg(dims[1]) and not neg(dims[0]):
+                used('contract("..i.. three factors ->i...").reshape(m, -1) (C order) -> krrows(krrows(F1, F2), F3): row i is kron(F1[i], F2[i], F3[i])')
+                ex.oblige(st, 'call-pre', 'reshape-keeps-the-leading-axis', Z(dims[0]) == Z(a.shape[0]), node)
+                f1, f2, f3 = a.t
+                return VArr((a.shape[0], T.mul_canon(a.shape[1], a.shape[2], a.shape[3])), krrows(krrows(f1, f2), f3), 'mat')
+            if a.tag == 'kr3':
+                raise Unsupported(f'reshape of a three-factor product to {dims} at line {node.lineno}')
+    return _orig_reshape3(ex, st, a, shp, order, node)
+
+
+M.reshape = reshape3
+_orig_method4 = M.method
+
+
+def method4(ex, st, recv, name, args, kwargs, node):
+    r = st.deref(recv)
+    if name == 'reshape' and isinstance(r, VArr) and r.tag == 'kr3':
+        shp = args[0] if len(args) == 1 else VTuple(args)
+        return M.reshape(ex, st, r, shp, kwargs.get('order', VStr('C')), node)
+    return _orig_method4(ex, st, recv, name, args, kwargs, node)
+
+
+M.method = method4
+_plain_contract = M.FUNCS['opt_einsum.contract']
+
+
+@model('opt_einsum.contract')
+def m_contract3(ex, st, args, kwargs, node):
+    """contract('li,ik,ij->ikjl', Yr, Yl, Hk): three matrices that share the sample index, nothing summed: a 4-D array with the sample
+    index first, kept as the triple of sample-major factors in the order of the output letters."""
+    spec = args[0].concrete() if args and isinstance(args[0], VStr) else None
+    if _on(ex) and spec and '->' in spec and not kwargs and len(args) == 4:
+        ins, res = spec.replace(' ', '').split('->')
+        terms = ins.split(',')
+        ops = [st.deref(a) for a in args[1:]]
+        if len(terms) == 3 and all(len(t) == 2 for t in terms) and all(is_mat(o) for o in ops) and len(res) == 4 and len(set(res)) == 4:
+            shared = set(terms[0]) & set(terms[1]) & set(terms[2])
+            letters = [c for t in terms for c in t]
+            if len(shared) == 1 and res[0] in shared and sorted(set(letters)) == sorted(res) and len(set(letters)) == 4:
+                i_ = res[0]
+                fac, dim, mrows = {}, {}, None
+                for t, o in zip(terms, ops):
+                    c = t[0] if t[1] == i_ else t[1]
+                    sample_first = t[0] == i_
+                    fac[c] = o.t if sample_first else tr(o.t)
+                    dim[c] = o.shape[1] if sample_first else o.shape[0]
+                    rws = o.shape[0] if sample_first else o.shape[1]
+                    if mrows is None:
+                        mrows = rws
+                    else:
+                        ex.oblige(st, 'call-pre', f'contract-index-{i_}-dimensions-agree', Z(mrows) == Z(rws), node)
+                used('opt_einsum.contract of three matrices sharing one (sample) index, no summation, sample index first in the output -> '
+                     '4-D array of the products, in the order of the output letters')
+                out = VArr((mrows,) + tuple(dim[c] for c in res[1:]), tuple(fac[c] for c in res[1:]), 'kr3')
+                st.ghost['contracts'] = st.ghost.get('contracts', []) + [dict(spec=spec, ops=ops, raw=list(args[1:]), out=None, outraw=None, line=node.lineno, shape=out.shape)]
+                return out
+    return _plain_contract(ex, st, args, kwargs, node)
+
+
+# ---- views and in-place writes of a core (gated)
+_orig_index3 = M.arr_index
+
+
+def arr_index3(ex, st, a, sl_, node):
+    elts = sl_.elts if isinstance(sl_, ast.Tuple) else [sl_]
+    if _on(ex) and isinstance(a, VArr) and a.t is not None:
+        lead = lambda e: isinstance(e, ast.Slice) and e.lower is None and e.step is None and e.upper is not None
+        if a.ndim == 3 and a.tag == 'core' and len(elts) == 3 and _full(elts[0]) and _full(elts[2]) and lead(elts[1]):
+            u = ex.need_num(st, ex.ev(elts[1].upper, st), node)
+            n = (a.shape[1] + u) if isinstance(u, int) and u < 0 else u
+            used('G[:, :n, :] -> ctrunc(G, n) (a VIEW of the leading n mode slices; requires 0 <= n <= mode size)')
+            ex.oblige(st, 'safety', 'leading-block-in-range', z3.And(Z(n) >= 0, Z(n) <= Z(a.shape[1])), node)
+            v = VArr((a.shape[0], n, a.shape[2]), ctrunc(a.t, Z(n)), 'core')
+            v.view_of = a
+            return v
+        if is_mat(a) and len(elts) == 2 and _full(elts[0]) and lead(elts[1]):
+            u = ex.need_num(st, ex.ev(elts[1].upper, st), node)
+            if isinstance(u, int) and u < 0:
+                from ttvc import vec as V
+                n = a.shape[1] + u
+                used('A[:, :-c] -> lcols(A, cols - c) (requires cols >= c)')
+                ex.oblige(st, 'safety', 'leading-block-in-range', Z(n) >= 0, node)
+                return VArr((a.shape[0], n), V.lcols(a.t, Z(n)), 'mat')
+    return _orig_index3(ex, st, a, sl_, node)
+
+
+M.arr_index = arr_index3
+_orig_store3 = M.store
+
+
+def store3(ex, st, base, sl_, v, node, base_node):
+    b = st.deref(base)
+    val = st.deref(v)
+    if _on(ex) and isinstance(b, VArr) and b.ndim == 3 and isinstance(base_node, ast.Name) and isinstance(sl_, ast.Constant) and sl_.value is Ellipsis \
+            and isinstance(val, VArr) and val.ndim == 3 and val.tag == 'core' and val.t is not None:
+        used('G[...] = X -> every entry of G is overwritten by X (requires equal shapes); the array object stays the same')
+        ex.oblige(st, 'call-pre', 'full-assignment-shape-matches', z3.And([Z(x) == Z(y) for x, y in zip(val.shape, b.shape)]), node)
+        new = VArr(b.shape, val.t, 'core')
+        new.view_of = getattr(b, 'view_of', None)
+        st.vars[base_node.id] = new
+        st.ghost['full_writes'] = st.ghost.get('full_writes', []) + [dict(name=base_node.id, old=b, new=new)]
+        return
+    return _orig_store3(ex, st, base, sl_, v, node, base_node)
+
+
+M.store = store3
+_orig_binop3 = M.arr_binop
+
+
+def arr_binop3(ex, st, op, l, r, node):
+    if _on(ex) and isinstance(op, ast.Add) and isinstance(l, VArr) and isinstance(r, VArr) and l.ndim == 3 and r.ndim == 3 \
+            and l.tag == 'core' and r.tag == 'core' and l.t is not None and r.t is not None:
+        used('G + H for two cores -> cadd(G, H) (requires equal shapes)')
+        ex.oblige(st, 'call-pre', 'elementwise-shapes-agree', z3.And([Z(x) == Z(y) for x, y in zip(l.shape, r.shape)]), node)
+        return VArr(l.shape, cadd(l.t, r.t), 'core')
+    return _orig_binop3(ex, st, op, l, r, node)
+
+
+M.arr_binop = arr_binop3
